@@ -132,7 +132,7 @@ example : (tableCfg Gen.sharedWrites).cache ≠ [] ∧ (tableCfg Gen.sharedWrite
 /-! ## C. the executable case model used by the correspondence run
 
 Full-strength statement (does NOT hold — `witness_shared_default` below):
-    theorem outcome_clean (c : CaseM) : outcome c = specOutcome
+    `outcome_clean : ∀ c : CaseM, outcome c = specOutcome`
 What is proved: the same under the exclusion `Excl c = false` (finding F-C15-1, class `SharedObjectDefault`). -/
 
 /-- Outside the exclusion the model of EVERY case — any operations, any number of goroutines, any
